@@ -83,6 +83,8 @@ def run(res, tier, seed):
                 "cursor-machine model (exact index) and with the statement (acceptable source times per query, NaN iff none). non-trivial = >=1 query and >=1 source in ep")
     res.exhaustive = tier == "thorough"
     cs = cases(tier, seed)
+    offs = [0, -3 * U, -1000 * U]
+    cs = [([x + offs[n % 3] for x in q], [y + offs[n % 3] for y in s_], [(a + offs[n % 3], b + offs[n % 3]) for a, b in ep], kind) for n, (q, s_, ep, kind) in enumerate(cs)]
     lines = []
     for q, s, ep, kind in cs:
         for m in (0, 1, 2):
